@@ -166,7 +166,9 @@ class Driver:
             self.errf.flush()
             with open(self.errpath, "rb") as f:
                 data = f.read()
-            return data[-6000:].decode("utf-8", "replace")
+            if len(data) > 7000:   # keep the head (the sanitizer's ERROR line) and the tail
+                data = data[:2500] + b"\n...[cut]...\n" + data[-4500:]
+            return data.decode("utf-8", "replace")
         except Exception:
             return ""
 
